@@ -249,11 +249,7 @@ func worldC03(w *World) {
 	startRawBackend(w, rb)
 	startAgent(w)
 	var wg sync.WaitGroup
-	type result struct {
-		msg *wireMsg
-		err string
-	}
-	results := make([]result, n)
+	results := make([]c03Result, n)
 	for i, g := range resps {
 		i, g := i, g
 		wg.Add(1)
@@ -292,96 +288,104 @@ func worldC03(w *World) {
 	w.K.MaxSteps = 3000000
 	g0 := resps[0]
 	w.Sample = map[string]interface{}{"requests": n, "first": fmt.Sprintf("status=%d interim=%d fields=%d framing=%s body=%d pieces=%v pause=%v declared=%v trailers=%v head=%v", g0.Status, len(g0.Interim), len(g0.Fields), g0.Framing, len(g0.Body), g0.Pieces, g0.Pause, g0.Declared, g0.Trailers, g0.Head)}
-	w.OnCheck(func() {
-		for _, e := range w.K.Exits {
-			w.Violation("crash", "node %s exited: %s", e.Node, e.Msg)
+	w.OnCheck(func() { checkC03(w, resps, results) })
+}
+
+type c03Result struct {
+	msg *wireMsg
+	err string
+}
+
+// checkC03 is the response-fidelity oracle shared by the HTTP/1.1 and h2c worlds.
+func checkC03(w *World, resps []*genResp, results []c03Result) {
+	for _, e := range w.K.Exits {
+		w.Violation("crash", "node %s exited: %s", e.Node, e.Msg)
+	}
+	for i, g := range resps {
+		r := results[i]
+		if r.msg == nil || r.err != "" {
+			w.Violation("progress", "the client did not receive a complete response | request %d: %s (backend status %d, framing %s, body %d, interim %d)", i, r.err, g.Status, g.Framing, len(g.Body), len(g.Interim))
+			continue
 		}
-		for i, g := range resps {
-			r := results[i]
-			if r.msg == nil || r.err != "" {
-				w.Violation("progress", "the client did not receive a complete response | request %d: %s (backend status %d, framing %s, body %d, interim %d)", i, r.err, g.Status, g.Framing, len(g.Body), len(g.Interim))
+		m := r.msg
+		var code int
+		fmt.Sscanf(m.StartLine, "HTTP/1.1 %d", &code)
+		interimNote := ""
+		if len(g.Interim) > 0 {
+			interimNote = " (final response preceded by 1xx interim responses)"
+			w.Probe("interim_1xx")
+		}
+		if code != g.Status {
+			w.Violation("status", "client received a different final status code%s | backend %d client %d", interimNote, g.Status, code)
+			continue
+		}
+		named := connectionNamed(g.Fields)
+		sent := fieldLists(g.Fields)
+		recv := fieldLists(m.Fields)
+		for name, vals := range sent {
+			if hopByHop[name] || named[name] || name == "content-length" {
 				continue
 			}
-			m := r.msg
-			var code int
-			fmt.Sscanf(m.StartLine, "HTTP/1.1 %d", &code)
-			interimNote := ""
-			if len(g.Interim) > 0 {
-				interimNote = " (final response preceded by 1xx interim responses)"
-				w.Probe("interim_1xx")
-			}
-			if code != g.Status {
-				w.Violation("status", "client received a different final status code%s | backend %d client %d", interimNote, g.Status, code)
+			if g.bodyless() && (name == "content-type" || name == "content-language" || name == "content-disposition" || name == "last-modified" || name == "etag") {
 				continue
 			}
-			named := connectionNamed(g.Fields)
-			sent := fieldLists(g.Fields)
-			recv := fieldLists(m.Fields)
-			for name, vals := range sent {
-				if hopByHop[name] || named[name] || name == "content-length" {
-					continue
-				}
-				if g.bodyless() && (name == "content-type" || name == "content-language" || name == "content-disposition" || name == "last-modified" || name == "etag") {
-					continue
-				}
-				if !equalStrings(vals, recv[name]) {
-					w.Violation("header", "an end-to-end response header field did not arrive with the same values in the same order%s | field %q backend %q client %q", interimNote, name, vals, recv[name])
-				}
-			}
-			for name := range recv {
-				if hopByHop[name] && name != "transfer-encoding" && name != "connection" && name != "trailer" {
-					w.Violation("hop-by-hop", "a hop-by-hop response field was forwarded to the client | %q: %q", name, recv[name])
-				}
-			}
-			if g.bodyless() {
-				if len(m.Body) != 0 {
-					w.Violation("body", "client received a body for a bodiless response | status %d head=%v got %d bytes", g.Status, g.Head, len(m.Body))
-				}
-				w.Probe("bodiless_response")
-				continue
-			}
-			if !bytes.Equal(m.Body, g.Body) {
-				w.Violation("body", "client received a different body | backend %d bytes (%s) client %d bytes", len(g.Body), g.Framing, len(m.Body))
-			}
-			// trailers: delivered as trailers, same values per name
-			st := fieldLists(g.Trailers)
-			rt := fieldLists(m.Trailers)
-			class := fmt.Sprintf("%d declared", len(g.Declared))
-			if len(g.Declared) > 1 {
-				class = "several declared"
-			}
-			if len(g.Trailers) > len(g.Declared) && len(st) > len(g.Declared) {
-				class += " + undeclared"
-			}
-			var names []string
-			for k := range st {
-				names = append(names, k)
-			}
-			sort.Strings(names)
-			for _, name := range names {
-				if !equalStrings(st[name], rt[name]) {
-					w.Violation("trailer", "a trailer field did not reach the client as a trailer with the same values (%s) | trailer %q backend %q client trailers %q client headers %q", class, name, st[name], rt[name], recv[name])
-				}
-			}
-			for _, name := range names {
-				if _, asHeader := sent[name]; !asHeader && len(recv[name]) > 0 {
-					w.Violation("trailer", "a field the backend sent only as a trailer reached the client in the header block | %q: %q", name, recv[name])
-				}
-			}
-			for name := range rt {
-				if _, ok := st[name]; !ok {
-					w.Violation("trailer", "client received a trailer the backend did not send | %q: %q", name, rt[name])
-				}
-			}
-			if len(g.Declared) > 1 {
-				w.Probe("several_declared_trailers")
-			}
-			if len(g.Trailers) > 0 {
-				w.Probe("trailers")
-			}
-			if len(g.Pieces) > 0 && g.Pieces[0] == 1 && len(g.Body) > 1 {
-				w.Probe("one_byte_first_write")
+			if !equalStrings(vals, recv[name]) {
+				w.Violation("header", "an end-to-end response header field did not arrive with the same values in the same order%s | field %q backend %q client %q", interimNote, name, vals, recv[name])
 			}
 		}
-	})
+		for name := range recv {
+			if hopByHop[name] && name != "transfer-encoding" && name != "connection" && name != "trailer" {
+				w.Violation("hop-by-hop", "a hop-by-hop response field was forwarded to the client | %q: %q", name, recv[name])
+			}
+		}
+		if g.bodyless() {
+			if len(m.Body) != 0 {
+				w.Violation("body", "client received a body for a bodiless response | status %d head=%v got %d bytes", g.Status, g.Head, len(m.Body))
+			}
+			w.Probe("bodiless_response")
+			continue
+		}
+		if !bytes.Equal(m.Body, g.Body) {
+			w.Violation("body", "client received a different body | backend %d bytes (%s) client %d bytes", len(g.Body), g.Framing, len(m.Body))
+		}
+		// trailers: delivered as trailers, same values per name
+		st := fieldLists(g.Trailers)
+		rt := fieldLists(m.Trailers)
+		class := fmt.Sprintf("%d declared", len(g.Declared))
+		if len(g.Declared) > 1 {
+			class = "several declared"
+		}
+		if len(g.Trailers) > len(g.Declared) && len(st) > len(g.Declared) {
+			class += " + undeclared"
+		}
+		var names []string
+		for k := range st {
+			names = append(names, k)
+		}
+		sort.Strings(names)
+		for _, name := range names {
+			if !equalStrings(st[name], rt[name]) {
+				w.Violation("trailer", "a trailer field did not reach the client as a trailer with the same values (%s) | trailer %q backend %q client trailers %q client headers %q", class, name, st[name], rt[name], recv[name])
+			}
+		}
+		for _, name := range names {
+			if _, asHeader := sent[name]; !asHeader && len(recv[name]) > 0 {
+				w.Violation("trailer", "a field the backend sent only as a trailer reached the client in the header block | %q: %q", name, recv[name])
+			}
+		}
+		for name := range rt {
+			if _, ok := st[name]; !ok {
+				w.Violation("trailer", "client received a trailer the backend did not send | %q: %q", name, rt[name])
+			}
+		}
+		if len(g.Declared) > 1 {
+			w.Probe("several_declared_trailers")
+		}
+		if len(g.Trailers) > 0 {
+			w.Probe("trailers")
+		}
+		if len(g.Pieces) > 0 && g.Pieces[0] == 1 && len(g.Body) > 1 {
+			w.Probe("one_byte_first_write")
+		}
+	}
 }
